@@ -1,5 +1,6 @@
 import TantivyModel.Driver.Proto
 import TantivyModel.Model.Tokenizer.Filters
+import TantivyModel.Model.Tokenizer.Stateful
 import TantivyModel.Model.Tokenizer.Ngram
 import TantivyModel.Model.Snippet
 /-!
@@ -16,6 +17,7 @@ Line protocol of the C19 model.
       spec: lower=<c>o.o/c>o> | fold=<c>o.o/…> | rl=<n> | an | stop=<w/w> | stem=<t>u/…> | split=<t>p+q/…>
   snippet <M> <codes> <alnum> <f:t:s;…  s = score or n>      -> panic | ok <frag codes> <hl a,b,…> <html hex|panic>
   chainfacet <spec|spec|…> <codes> <alnum>                   -> tokens of FacetTokenizer + chain
+  splithist <split=…> <tokens@k#tokens@k…>                   -> tokens#tokens…  (reused analyzer, stateful model)
   collapse <a,b,a,b,…>                                       -> a,b,…
   (`missing-param` = a parameter table of the request lacks a point the model needs)
 -/
@@ -119,16 +121,9 @@ def utf8Bytes (c : Nat) : List Nat :=
   else if c < 0x10000 then [0xE0 + c / 4096, 0x80 + (c / 64) % 64, 0x80 + c % 64]
   else [0xF0 + c / 262144, 0x80 + (c / 4096) % 64, 0x80 + (c / 64) % 64, 0x80 + c % 64]
 
-def entity (c : Nat) : List Nat :=
-  (if c == 0x22 then "&quot;" else if c == 0x26 then "&amp;" else if c == 0x27 then "&#x27;"
-   else if c == 0x3C then "&lt;" else "&gt;").toList.map Char.toNat
-
+/-- the bytes of `to_html()`: the model's character rendering (`renderChars`), UTF-8 encoded -/
 def renderHtml (h : List Html) : List UInt8 :=
-  (h.flatMap fun
-    | .raw c => utf8Bytes c
-    | .ent c => entity c
-    | .open_ => Gen.SNIPPET_PREFIX
-    | .close => Gen.SNIPPET_POSTFIX).map UInt8.ofNat
+  ((renderChars h).flatMap utf8Bytes).map UInt8.ofNat
 
 def parseSToks (s : String) : Option (List STok) :=
   if s == "-" then some [] else
@@ -186,6 +181,35 @@ def handle : List String → String
         let frag := if sn.fragment.isEmpty then "-" else showDots (sn.fragment.map Cp.code)
         s!"ok {frag} {showNatList (sn.hl.flatMap (fun h => [h.1, h.2]))} {html}"
     | _, _, _ => "bad-op"
+  | ["splithist", spec, steps] =>
+    -- one reused analyzer ending in SplitCompoundWords: `inner@k#inner@k…` (tokens reaching the
+    -- filter for each text, number of tokens read before the stream is dropped); the stateful model
+    -- (`splitNewStream` with the extracted clearing, `splitRun`) threads the `parts` buffer
+    match parseFilter spec with
+    | some (.split g) =>
+      let parsed := (steps.splitOn "#").mapM (fun st =>
+        match st.splitOn "@" with
+        | [toks, k] => match parseTokens toks, k.toNat? with
+          | some ts, some k => some (ts, k)
+          | _, _ => none
+        | _ => none)
+      match parsed with
+      | none => "bad-op"
+      | some sts =>
+        let r := sts.foldl (fun (acc : PartsBuf × List String) st =>
+          let run := splitRun g st.2 (splitNewStream Gen.SPLIT_COMPOUND_CLEARS_PARTS acc.1) st.1
+          (run.2, acc.2 ++ [showChain run.1])) ([], [])
+        "#".intercalate r.2
+    | _ => "bad-op"
+  | ["ngramnew", mn, mx] =>
+    match mn.toNat?, mx.toNat? with
+    | some mn, some mx => if ngramNewOk mn mx then "ok" else "err"
+    | _, _ => "bad-op"
+  | ["unesc", d] =>
+    -- the model's reader of the HTML (`unescapeChars`) applied to the characters of a real rendering
+    match (if d == "-" then some [] else dotList d) with
+    | some cs => let r := unescapeChars cs; if r.isEmpty then "-" else showDots r
+    | none => "bad-op"
   | ["collapse", l] =>
     match (natList l).bind pairs with
     | some ps => showNatList ((collapse ps).flatMap (fun h => [h.1, h.2]))
